@@ -390,7 +390,7 @@ def tail(s, n):
 def dedupe(xs):
     out, seen = [], set()
     for x in xs:
-        k = x[:60]
+        k = " ".join(x.split()[:2])
         if k not in seen:
             seen.add(k)
             out.append(x)
@@ -444,8 +444,24 @@ def do_replay(prop, path, log):
 ALL_RIGS = ["r5", "r9", "r1", "r0"]
 
 PLANS = {
-    "C01": SeqPlan("C01", ["general"], ALL_RIGS, quick=(5, 120, 300), thorough=(8, 1500, 400), miri_quick=8, miri_thorough=32,
+    "C01": SeqPlan("C01", ["general"], ALL_RIGS, quick=(5, 120, 300), thorough=(8, 1500, 400), miri_quick=6, miri_thorough=32,
                    what="world content (ids, component sets, values, len/is_empty, extend return values) vs reference map after every op"),
     "C02": SeqPlan("C02", ["aba", "general"], ALL_RIGS, quick=(5, 150, 300), thorough=(8, 2000, 400), miri_quick=0, miri_thorough=16,
                    what="uniqueness of issued identifiers over the world's lifetime; contains/entry/Entries::entry/remove for every identifier ever issued (live, stale of any age, never issued)"),
+    "C03": SeqPlan("C03", ["query"], ALL_RIGS, quick=(5, 120, 300), thorough=(8, 1500, 400), miri_quick=8, miri_thorough=32, miri_profile="query",
+                   what="every result of generated query instantiations (views x filters x resource views x entry views x sub-views; next/fold/mixed iteration; size_hint before each next) vs model-side evaluation; writes through views land on that entity only"),
+    "C04": SeqPlan("C04", ["churn"], ALL_RIGS, quick=(5, 120, 300), thorough=(8, 1500, 400), miri_quick=4, miri_thorough=16, miri_profile="churn",
+                   what="per-value drop ledger: after every op constructed-minus-dropped per component type equals what the worlds hold; double / unknown / early drops; everything dead after the last world is dropped"),
+    "C05": SeqPlan("C05", ["mem", "general", "churn"], ["r5", "r9", "r1"], quick=(6, 100, 300), thorough=(8, 1500, 400), miri_quick=12, miri_thorough=48, miri_profile="mem", asan_thorough=True,
+                   what="allocator audit (layout of every dealloc/realloc, double free, unknown free, bytes returned at end of history), self-checking payloads (tag, checksum, alignment, heap bytes), Miri (OOB, dangling, uninit, invalid value, layout, leak), ASan/LSan in thorough"),
+    "C06": SeqPlan("C06", ["serde"], ALL_RIGS, quick=(5, 120, 300), thorough=(8, 1500, 400), miri_quick=4, miri_thorough=16, miri_profile="serde",
+                   what="serde_json (row-wise) and serde_assert tokens (readable + compact/column-wise) round trips at random points: ==, structure dump, then lock-step continuation of original and copy with return values compared"),
+    "C10": SeqPlan("C10", ["clone"], ALL_RIGS, quick=(5, 120, 300), thorough=(8, 1500, 400), miri_quick=4, miri_thorough=16, miri_profile="clone",
+                   what="clone()/clone_from() between independently grown worlds: equality, per-table content, no shared allocation, then divergent histories on both sides with every other oracle on"),
+    "C13": SeqPlan("C13", ["general", "aba", "serde", "clone"], ALL_RIGS, quick=(6, 120, 300), thorough=(8, 1500, 400), miri_quick=0, miri_thorough=8,
+                   what="structural audit of verif_dump after every op: slots<->rows bijection, free list = inactive slots, len, unique archetype per identifier, lookup tables"),
+    "C15": SeqPlan("C15", ["res"], ["r5", "r9", "r1"], quick=(5, 120, 300), thorough=(8, 1500, 400), miri_quick=2, miri_thorough=8, miri_profile="res",
+                   what="get/get_mut/view_resources/query resource views vs model per resource; resources unchanged by every entity op, clone, clone_from, round trip"),
+    "C16": SeqPlan("C16", ["eq"], ALL_RIGS, quick=(5, 120, 300), thorough=(8, 1500, 400), miri_quick=0, miri_thorough=8, miri_profile="eq",
+                   what="== in both directions beside model comparison for pairs of worlds reached through different histories, clones and round trips with single-point differences"),
 }
